@@ -36,6 +36,18 @@ func MDOf(kvs []KV) metadata.MD {
 	return md
 }
 
+// MDOfOp builds the metadata of a header/trailer op.
+func MDOfOp(op HOp) metadata.MD {
+	if !op.Raw {
+		return MDOf(op.MD)
+	}
+	md := metadata.MD{}
+	for _, kv := range op.MD {
+		md[kv.K] = append(md[kv.K], string(kv.V))
+	}
+	return md
+}
+
 // ModelMD is the reference model of what the peer must observe for a list of
 // metadata sets joined in call order: lower-cased keys, per-key value order.
 func ModelMD(sets ...[]KV) map[string][]string {
@@ -152,6 +164,9 @@ type HOp struct {
 	P  *Payload `json:"p,omitempty"`
 	MD []KV     `json:"md,omitempty"`
 	N  int64    `json:"n,omitempty"` // sleep: virtual ms
+	// Raw: build the metadata.MD with the keys exactly as given (a hand-built
+	// map) instead of through metadata.Append, which lower-cases them.
+	Raw bool `json:"raw,omitempty"`
 }
 
 // HProg is a streaming handler program: the ops, then return Ret.
@@ -271,19 +286,19 @@ func RunHandler(prog HProg, stream grpc.ServerStream, log *HLog) error {
 			}
 			log.mu.Unlock()
 		case "sethdr":
-			if err := stream.SetHeader(MDOf(op.MD)); err != nil {
+			if err := stream.SetHeader(MDOfOp(op)); err != nil {
 				log.mu.Lock()
 				log.HdrErrs = append(log.HdrErrs, Observe(err))
 				log.mu.Unlock()
 			}
 		case "sendhdr":
-			if err := stream.SendHeader(MDOf(op.MD)); err != nil {
+			if err := stream.SendHeader(MDOfOp(op)); err != nil {
 				log.mu.Lock()
 				log.HdrErrs = append(log.HdrErrs, Observe(err))
 				log.mu.Unlock()
 			}
 		case "settrl":
-			stream.SetTrailer(MDOf(op.MD))
+			stream.SetTrailer(MDOfOp(op))
 		case "waitctx":
 			<-ctx.Done()
 			log.mu.Lock()
